@@ -227,7 +227,7 @@ class Gen:
                 if a is not None:
                     self.helper_reuses += 1
                     return f"{l}({a})"
-            aT = self.anyT(True)
+            aT = r.choice([self.anyT(True), ("seq", "int"), ("seq", ("rec", "jet"))])
             a = E(aT)
             # helpers are generated closed (their only free name is their parameter)
             l = self.lam(aT, T, {"ds": env["ds"]} if r.random() < 0.4 else env, d - 1, role="helper")
@@ -255,14 +255,20 @@ class Gen:
                     body = r.choice([
                         f"Count(Where(Select({js}, lambda {a_}: {a_}.pt), lambda {b_}: {b_} > {c}))",
                         f"Count(Select(Where({js}, lambda {a_}: {a_}.pt > {c}), lambda {b_}: {b_}.eta)) + {c}",
+                        # the sequence parameter used again underneath a stage lambda
+                        f"Count(Where({js}, lambda {a_}: Count({js}) > {a_}.pt + {c}))",
                     ])
                 else:
-                    body = r.choice([
+                    body = [
                         f"Select(Select({js}, lambda {a_}: {a_}.pt), lambda {b_}: {b_} * {c})",
                         f"Where(Select({js}, lambda {a_}: {a_}.eta + {c}), lambda {b_}: {b_} > 0)",
                         f"Select(Select({js}, lambda {a_}: ({a_}.pt, {c})), lambda {b_}: {b_}[0] + {b_}[1])",
-                        f"SelectMany(Select({js}, lambda {a_}: ({a_}, {c})), lambda {b_}: Select({js}, lambda {a_}: {a_}.pt + {b_}[1]))",
-                    ])
+                        f"Select({js}, lambda {a_}: Count({js}) * 100 + {a_}.pt * {c})",
+                        f"Select({js}, lambda {a_}: Count(Where({js}, lambda {b_}: {b_}.pt > {c})) + {a_}.eta)",
+                    ]
+                    if a_ != b_:
+                        body.append(f"SelectMany(Select({js}, lambda {a_}: ({a_}, {c})), lambda {b_}: Select({js}, lambda {a_}: {a_}.pt + {b_}[1]))")
+                    body = r.choice(body)
                 text = f"(lambda {js}, {c}: {body})"
                 self.helpers.append((key, text))
             aj, ac = E(("seq", ("rec", "jet"))), E("int")
